@@ -2,7 +2,7 @@ from .common import COMMON_TB
 
 CFG = dict(
         coq="Properties/C19.v",
-        areas=["options"],
+        areas=["options", "lzmaenc"],
         profiles=["release", "checked"],
         level="proof",
         theorems_expected=["C19_in", "C19_out", "C19_ctx_index_bounds", "C19_props_roundtrip", "C19_encoder_new_ok"],
